@@ -1024,7 +1024,7 @@ class G:
                 self.write(ds, self.items(2, [], {}, n=2) + [("X", f"<{dn}>")])
                 holder = r.choice(["h", "page"])
                 self.dyn_names = [(holder, dn)]
-                pos = r.randint(0, len(body))
+                pos = r.choice([0, len(body)])  # top level only (the item list is flat)
                 body[pos:pos] = [("T", "include", self.path_frag((holder, [("n", "tpl")])), True)]
             body.append(("X", f"<{root_name}>"))
             self.write(root, body)
